@@ -1,3 +1,4 @@
+import MiniconfVerif.Lemmas.GenTieText
 import MiniconfVerif.Lemmas.JsonPath
 
 /-! # C15 — path and JSON-path strings split into keys exactly as documented
@@ -135,5 +136,16 @@ example : jdrain 7 ".foo['bar'].4.'baz'['5'].'6'".toList
     = some (["foo", "bar", "4", "baz", "5", "6"].map String.toList, []) := by decide
 example : DelimFree "foo".toList := by decide
 example : jnext "['".toList = .done := by decide
+
+
+/-! ### Tie to the translated source (`Gen/Text.lean`, regenerated from node.rs and jsonpath.rs on every run) -/
+open MiniconfVerif.Gen MiniconfVerif.GenTie MiniconfVerif.PathIter in
+/-- `PathIter::<S>::next` and `JsonPathIter::next` **as translated from the source** (byte-offset arithmetic,
+`split_at`, `get(S.len_utf8()..)`, the four JSON-path rules in source order) are the model's `next` / `jnext`
+on which the theorems of this file are proved — for every separator, every text, every iterator state. -/
+theorem source_iterators_are_model :
+    (∀ (S : Char) (st : Option Str), stepOfP (Text.PathIter.next S st) = PathIter.next S st) ∧
+    (∀ s : Str, jstepOfP (Text.JsonPathIter.next s) = jnext s) :=
+  ⟨pathIter_next_tie, jsonPathIter_next_tie⟩
 
 end MiniconfVerif.C15
